@@ -98,21 +98,6 @@ def _worker_init(cid):
     faulthandler.enable()
 
 
-def _limit_address_space():
-    """Failing allocations are part of the fault model, and a run that asks
-    for 10^20 variables must meet one long before the machine does."""
-    try:
-        import resource
-        gb = float(os.environ.get("VERIF_MEM_GB", "6"))
-        soft, hard = resource.getrlimit(resource.RLIMIT_AS)
-        want = int(gb * 2 ** 30)
-        if hard != resource.RLIM_INFINITY:
-            want = min(want, hard)
-        resource.setrlimit(resource.RLIMIT_AS, (want, hard))
-    except (ImportError, ValueError, OSError):
-        pass
-
-
 def run_chunk(cid, seed, config, start, stop, digest_upto):
     check = _CHECK or load_check(cid)
     _limit_address_space()
@@ -224,6 +209,21 @@ def _plan(check, tier):
     return list(check.CONFIGS[tier])
 
 
+def _limit_address_space():
+    """Failing allocations are part of the fault model, and a run that asks
+    for 10^20 variables must meet one long before the machine does."""
+    try:
+        import resource
+        gb = float(os.environ.get("VERIF_MEM_GB", "6"))
+        soft, hard = resource.getrlimit(resource.RLIMIT_AS)
+        want = int(gb * 2 ** 30)
+        if hard != resource.RLIM_INFINITY:
+            want = min(want, hard)
+        resource.setrlimit(resource.RLIMIT_AS, (want, hard))
+    except (ImportError, ValueError, OSError):
+        pass
+
+
 def main(argv=None):
     argv = list(sys.argv[1:] if argv is None else argv)
     if len(argv) < 2:
@@ -262,6 +262,10 @@ def scratch_dir(prefix):
 
 
 def _main(cid, argv):
+    # the main process re-executes sample runs (self-test, confirmation,
+    # minimisation): it lives under the same address-space limit as the
+    # workers, or a run that allocates without end takes the machine down
+    _limit_address_space()
     try:
         if argv[1] == "--replay":
             return replay(cid, argv[2])
